@@ -11,12 +11,15 @@ trap 'git -C /repo worktree remove --force $WT >/dev/null 2>&1' EXIT
 ids=${@:-$(ls seeded)}
 for s in $ids; do
   p=${s%%-*}
+  # a change reported by a neighbouring property's check names that check in its meta.json
+  q=$(python3 -c "import json,re,sys; m=json.load(open('/verif/seeded/$s/meta.json')); c=m.get('evaluation',{}).get('check_cmd',''); r=re.search(r'bin/check (C\d+)', c); print(r.group(1) if r else '')" 2>/dev/null)
+  [ -n "$q" ] && p=$q
   ( cd $WT && git checkout -q -- . && git clean -fdq )
   if ! ( cd $WT && git apply --check /verif/seeded/$s/patch.diff 2>/dev/null ); then echo "$s STALE (patch does not apply to HEAD)"; continue; fi
   ( cd $WT && git apply /verif/seeded/$s/patch.diff )
   out=$(VERIF_REPO=$WT bin/check $p 2>&1); rc=$?
   nv=$(echo "$out" | grep -c "^VIOLATION property=$p ")
   cl=$(echo "$out" | grep "^VIOLATION" | sed -n 's/.*clauses=\([^ ]*\).*/\1/p' | sort -u | tr '\n' ' ')
-  echo "$s rc=$rc violations=$nv clauses=$cl"
+  echo "$s check=$p rc=$rc violations=$nv clauses=$cl"
 done
 git clean -fdq replays >/dev/null 2>&1
